@@ -144,6 +144,8 @@ fn generate_origins() -> Vec<Origin> {
 }
 
 pub fn get_origins() -> &'static Vec<Origin> {
+    #[cfg(feature = "verif")]
+    crate::verif::yield_point(crate::verif::site::ORIGINS_GET);
     ORIGINS.get_or_init(generate_origins)
 }
 
